@@ -192,7 +192,12 @@ def _run_attack(np, scared, att, SF, mo, model, ths, words, cipher, nguess, tag,
             parts = list(range(9)) if cipher == 'aes' else list(range(5))
             if isinstance(mo, scared.Monobit): parts = [0, 1] if att == 'mia' else None
             C = {'anova': scared.ANOVAAttack, 'nicv': scared.NICVAttack, 'snr': scared.SNRAttack, 'mia': scared.MIAAttack}[att]
-            kw = dict(selection_function=sf, model=mo, discriminant=scared.nanmax, partitions=parts, **ckw)
+            # ANOVA / NICV / SNR are non-negative statistics: maxabs ranks exactly like nanmax, every other configuration uses it
+            disc = scared.nanmax
+            if att in ('anova', 'nicv', 'snr'):
+                disc = (scared.nanmax, scared.maxabs)[_run_attack.n % 2] if cstep is None else scared.maxabs
+            kw = dict(selection_function=sf, model=mo, discriminant=disc, partitions=parts, **ckw)
+            if att in ('anova', 'nicv', 'snr'): _run_attack.n += 1
             if att == 'mia':
                 hi = float(max(parts)) + 0.5
                 kw['bin_edges'] = np.linspace(-0.5, hi, int(hi + 0.5) + 1)
